@@ -6,11 +6,17 @@ CONSTANTS
   Kinds = {"single"}
   MaxCredit = 2
   MaxTick = 0
+  NP = 2
+  Limit = 2
+  MaxFail = 1
   MaxAbort = 1
 SPECIFICATION SpecConn
 INVARIANT EachResponseOnce
 INVARIANT IdQuestionPreserved
 INVARIANT Framed
+INVARIANT NumConnsExact
 PROPERTY OthersUnaffected
 PROPERTY ClosedFinal
+PROPERTY RefusedOnlyAtLimit
+PROPERTY TornIsLast
 CHECK_DEADLOCK FALSE
